@@ -139,10 +139,10 @@ def slots_stream(names: int, prefixes: int):
     return jwire.write_delimited([jwire.enc_frame(rows)]), expect
 
 
-def optrow_stream(n: int, delimited: bool, names: int = 16):
+def optrow_stream(n: int, delimited: bool, names: int = 16, logical: int = 1, lead: int = 0):
     """A producer's stream whose options row carries a stream name of n bytes: in non-delimited
     form the second byte of the stream is the length of that row, which takes every value."""
-    opts = {"stream_name": "s" * n, "physical_type": 1, "logical_type": 1,
+    opts = {"stream_name": "s" * n, "physical_type": 1, "logical_type": logical,
             "max_name_table_size": names, "max_prefix_table_size": 4,
             "max_datatype_table_size": 4, "version": 1}
     rows = [jwire.mkrow("options", opts),
@@ -155,18 +155,38 @@ def optrow_stream(n: int, delimited: bool, names: int = 16):
     rows.append(jwire.mkrow("triple", {"o": ("literal", "x", None, None)}))
     frame = jwire.enc_frame(rows)
     expect = [(a, a, b), (a, a, ("L", "x", None, None))]
+    if lead:
+        # the length prefix (two bytes) of the last frame starts at byte offset lead - 1: the
+        # rows above travel in a first frame, a filler statement sized to fit in a second one
+        first = jwire.write_delimited([jwire.enc_frame(rows[:-1])])
+        last = jwire.enc_frame([rows[-1], jwire.mkrow("triple", {"o": ("literal", "y" * 200,
+                                                                        None, None)})])
+        expect = [expect[0]]
+        k = lead - 1 - len(first) - 30
+        for _ in range(40):
+            filler = jwire.write_delimited([jwire.enc_frame(
+                [jwire.mkrow("triple", {"o": ("literal", "f" * max(k, 0), None, None)})])])
+            if len(first) + len(filler) == lead - 1:
+                break
+            k += (lead - 1) - (len(first) + len(filler))
+        else:
+            raise HarnessError(f"cannot place a frame prefix at offset {lead - 1}")
+        expect += [(a, a, ("L", "f" * max(k, 0), None, None)), (a, a, ("L", "x", None, None)),
+                   (a, a, ("L", "y" * 200, None, None))]
+        return first + filler + jwire.write_delimited([last]), expect
     return (jwire.write_delimited([frame]) if delimited else frame), expect
 
 
 def run_slots(case: dict) -> list[tuple[str, str]]:
     if "optrow" in case:
-        n, delimited, names = case["optrow"]
-        data, expect = optrow_stream(n, delimited, names)
+        n, delimited, names, *more = case["optrow"]
+        data, expect = optrow_stream(n, delimited, names, *more)
         frames = jwire.read_delimited(data) if delimited else jwire.read_single(data)
         _, per = jspec.decode_frames(frames)
         if [T.norm_st(s) for s in jspec.statements(per)] != expect:
             raise HarnessError(f"options-row stream {case} does not denote what it should")
-        case = {"slots": f"options row with a {n}-byte name, delimited={delimited}"}
+        case = {"slots": f"options row with a {n}-byte name, delimited={delimited}, "
+                         f"logical type / prefix offset {more}"}
     else:
         data, expect = slots_stream(*case["slots"])
         _, per = jspec.decode_frames(jwire.read_delimited(data))
@@ -213,6 +233,25 @@ def slots_shard(job) -> dict:
                 for where, msg in run_slots(case):
                     acc.violation({"parser": where, "deviations": "options-row-length"},
                                   f"{msg}; case={case}", case)
+    # logical sub-types in the options row (a TRIPLES stream of subject graphs, …)
+    for logical in (0, 1, 3, 13):
+        for delimited in (False, True):
+            case = {"optrow": [3, delimited, 16, logical]}
+            acc.evals += 1
+            acc.nontrivial += 1
+            n_opt += 1
+            for where, msg in run_slots(case):
+                acc.violation({"parser": where, "deviations": "logical-subtype"},
+                              f"{msg}; case={case}", case)
+    # a frame whose two-byte length prefix straddles a power-of-two offset of the input
+    for lead in (128, 4096, 8192, 16384, 32768, 65536, 131072, 262144):
+        case = {"optrow": [3, True, 16, 1, lead]}
+        acc.evals += 1
+        acc.nontrivial += 1
+        n_opt += 1
+        for where, msg in run_slots(case):
+            acc.violation({"parser": where, "deviations": "prefix-at-block-boundary"},
+                          f"{msg[:300]}; case={case}", case)
     acc.extra = {"kinds": {"extreme-slots": len(SLOT_SIZES), "options-row-length": n_opt},
                  "nodes": 0}
     return acc.out()
